@@ -153,3 +153,44 @@ Proof.
   - apply (np_gradient_affine_ext _ (y0 + e * IZR p) c); try assumption. intros k. ring.
   - apply (np_gradient_affine_ext _ (y0 + c * IZR l) e); try assumption. intros k. ring.
 Qed.
+
+(* ---------------- a sliced source: positions are relative to the slice, whatever the slicing history ---------------- *)
+Lemma shift_fields_compose {T} (F : fields T) a1 b1 a2 b2 :
+  shift_fields (shift_fields F a1 b1) a2 b2 = shift_fields F (a2 + a1) (b2 + b1).
+Proof.
+  unfold shift_fields, shift2. cbn [f_sx f_sy f_xl f_xp f_yl f_yp]. f_equal;
+    apply FunctionalExtensionality.functional_extensionality; intros l;
+    apply FunctionalExtensionality.functional_extensionality; intros p; f_equal; lia.
+Qed.
+Lemma slice_steps_from {T} (F : fields T) steps : forall r0 c0,
+  fold_left (fun G s => shift_fields G (fst s) (snd s)) steps (shift_fields F r0 c0)
+  = shift_fields F (fst (fold_left (fun acc s => (fst acc + fst s, snd acc + snd s))%Z steps (r0, c0)))
+                   (snd (fold_left (fun acc s => (fst acc + fst s, snd acc + snd s))%Z steps (r0, c0))).
+Proof.
+  induction steps as [|[a b] r IH]; intros r0 c0; cbn [fold_left fst snd]; [reflexivity|].
+  rewrite shift_fields_compose. replace (a + r0)%Z with (r0 + a)%Z by lia. replace (b + c0)%Z with (c0 + b)%Z by lia. apply IH.
+Qed.
+Lemma shift_fields_0 {T} (F : fields T) : shift_fields F 0 0 = F.
+Proof.
+  destruct F. unfold shift_fields, shift2. cbn. f_equal;
+    apply FunctionalExtensionality.functional_extensionality; intros l;
+    apply FunctionalExtensionality.functional_extensionality; intros p; f_equal; lia.
+Qed.
+Lemma slice_steps_shift {T} (F : fields T) steps :
+  slice_steps F steps = shift_fields F (fst (steps_start steps)) (snd (steps_start steps)).
+Proof. unfold slice_steps, steps_start. rewrite <- (shift_fields_0 F) at 1. apply slice_steps_from. Qed.
+
+Theorem sliced_source_positions x0 y0 a b c e : c * b - e * a <> 0 ->
+  forall steps lmax pmax, (0 <= lmax < 2 ^ 31)%Z -> (0 <= pmax < 2 ^ 31)%Z ->
+  forall (dst : Z -> Z -> R * R) H W,
+    search RO (slice_steps (affF x0 y0 a b c e) steps) lmax pmax (idx_kern RO) dst H W
+    = tab (fun i j =>
+             let L := exactL x0 y0 a b c e (fst (dst i j)) (snd (dst i j)) - IZR (fst (steps_start steps)) in
+             let P := exactP x0 y0 a b c e (fst (dst i j)) (snd (dst i j)) - IZR (snd (steps_start steps)) in
+             if inside lmax pmax L P then Some (P, L) else None) 0 H 0 W.
+Proof.
+  intros Hdet steps lmax pmax Hl Hp dst H W. rewrite slice_steps_shift, shift_affine.
+  rewrite (search_indices _ _ a b c e Hdet lmax pmax Hl Hp). apply tab_ext_in. intros i j _ _. unfold idx_spec.
+  destruct (exact_shift x0 y0 a b c e Hdet (fst (steps_start steps)) (snd (steps_start steps)) (fst (dst i j)) (snd (dst i j))) as [-> ->].
+  reflexivity.
+Qed.
